@@ -962,13 +962,16 @@ def part_d(ctx):
         s.state(0)
         ctx.add_session(s, SECTIONS_L2, f'C05 to_expr {order}')
         s.close()
-    if ctx.tier == 'thorough':
-        names = ['a', 'b', 'c', 'd']
+    if True:
+        # four and five variables, sampled: shared sub-diagrams reached again through a
+        # complemented edge only appear from four variables on
+        names = ['a', 'b', 'c', 'd'] if rng.random() < 0.7 else ['a', 'b', 'c', 'd', 'e']
         sp4 = Space(names)
-        for order in rng.sample(list(itertools.permutations(names)), 6):
+        n_orders, n_fun = (6, 1500) if ctx.tier == 'thorough' else (2, 500)
+        for order in rng.sample(list(itertools.permutations(names)), n_orders):
             s = fresh(ctx, order)
             bld = Builder(s)
-            for _ in range(1500):
+            for _ in range(n_fun):
                 t = rng.randrange(sp4.full + 1)
                 r = bld.build(sp4, t)
                 for u in (r, -r):
